@@ -87,4 +87,91 @@ theorem makeTime : makeTime_statement := by
     · show x - offBefore z i < timeOf z i; omega
     · show timeOf z i ≤ x - offOf z i; omega
 
+theorem shift : shift_statement := by
+  intro z h cs ly wf cso v hext hly hy hp hl s cs' r' r
+  have hcore : (makeTimeCore z h cs).val = (.inr s, h) := core_shift z h cs ly wf cso hext hly hy hp hl
+  have hy1 : ly - 400 < cs'.y := by
+    show ly - 400 < cs.y - 400 * ((cs.y - ly - 1) / 400 + 1); omega
+  have hy2 : cs'.y ≤ ly := by
+    show cs.y - 400 * ((cs.y - ly - 1) / 400 + 1) ≤ ly; omega
+  have hrd : (rd z.lastYear 0).val = ly := by simp only [hly, rd, Ck.pure_val]
+  obtain ⟨cl, h2, hcl⟩ := core_inl z h cs' (by rw [hrd]; omega)
+  have e' : r' = cl := by
+    show (Tz.makeTime z h cs').val.1 = cl
+    rw [makeTime_of_core z h cs' cl h2 hcl]
+  have e : r = (timeLocalShift cl s).val := by
+    show (Tz.makeTime z h cs).val.1 = _
+    rw [makeTime_of_shift z h cs v s cl h2 hcore hcl]
+  rw [e, e', timeLocalShift_val]
+  exact ⟨hy1, hy2, rfl, rfl, rfl, rfl⟩
+
+/-! ### the hypotheses are satisfiable, and the added ones are needed -/
+
+/-- an ordinary table (gap at 1000000, overlap at 2000000) has every hypothesis, and all three
+kinds of answer occur on it -/
+example : TableWF zEx ∧ CivilCols zEx ∧ Separated zEx ∧ FarApart zEx ∧ TimesInRange zEx ∧
+    Valid ⟨1970, 1, 12, 14, 0, 0⟩ ∧ NoShift zEx ⟨1970, 1, 12, 14, 0, 0⟩ :=
+  ⟨zEx_wf, zEx_cols, zEx_sep, zEx_far, zEx_tir, by decide, Or.inl rfl⟩
+example : (Tz.makeTime zEx 0 ⟨1970, 1, 12, 14, 0, 0⟩).val.1 = ⟨.skipped, 1000800, 1000000, 997200⟩ := by
+  decide +kernel
+example : (Tz.makeTime zEx 7 ⟨1970, 1, 24, 4, 0, 0⟩).val.1 = ⟨.repeated, 1998000, 2000000, 2001600⟩ := by
+  decide +kernel
+example : (Tz.makeTime zEx 1 ⟨1970, 1, 20, 0, 0, 0⟩).val.1 = mkUnique 1638000 := by decide +kernel
+
+/-- the statement without `TimesInRange` fails: on a table whose only entry is at 2^63 + 10 the
+civil second just before it is UNIQUE with an instant above max() that is not clamped -/
+theorem makeTime_needs_TimesInRange :
+    ¬ (∀ (z : Zone) (h : Nat) (cs : Fields), TableWF z → CivilCols z → Separated z → Valid cs → NoShift z cs →
+      let r := (Tz.makeTime z h cs).val.1
+      let x := secNum cs
+      match r.kind with
+      | .unique => ∃ t, (∀ u, shows z u x ↔ u = t) ∧
+          r.pre = clamp64 t ∧ r.trans = clamp64 t ∧ r.post = clamp64 t
+      | .skipped => (∀ u, ¬ shows z u x) ∧ ∃ i, i < z.transitions.size ∧
+          r.trans = timeOf z i ∧ r.pre = x - offBefore z i ∧ r.post = x - offOf z i ∧
+          r.pre ≥ r.trans ∧ r.trans > r.post
+      | .repeated => ∃ i, i < z.transitions.size ∧
+          (∀ u, shows z u x ↔ u = x - offBefore z i ∨ u = x - offOf z i) ∧
+          r.trans = timeOf z i ∧ r.pre = x - offBefore z i ∧ r.post = x - offOf z i ∧
+          r.pre < r.trans ∧ r.trans ≤ r.post) := by
+  intro H
+  have h := H zBig 0 ⟨292277026596, 12, 4, 15, 30, 17⟩ zBig_wf zBig_cols zBig_sep (by decide) (Or.inl rfl)
+  have hr : (Tz.makeTime zBig 0 ⟨292277026596, 12, 4, 15, 30, 17⟩).val.1 = mkUnique 9223372036854775817 := by
+    decide +kernel
+  simp only [hr, mkUnique] at h
+  obtain ⟨t, _, hpre, _⟩ := h
+  have := clamp64_le t
+  unfold i64max at this
+  omega
+
+/-- a table and a civil second with every hypothesis of the shift path -/
+example : let z : Zone := { zEx with extended := true, lastYear := some 1970 }
+    TableWF z ∧ CivilSorted z ∧ Valid ⟨2375, 6, 1, 0, 0, 0⟩ ∧ z.extended = true ∧ z.lastYear = some 1970 ∧
+    (⟨2375, 6, 1, 0, 0, 0⟩ : Fields).y > 1970 ∧
+    Civil.lt (trn z (z.transitions.size - 1)).prevCivilSec ⟨2375, 6, 1, 0, 0, 0⟩ = true ∧
+    Civil.lt ⟨2375, 6, 1, 0, 0, 0⟩ (trn z (z.transitions.size - 1)).civilSec = false :=
+  ⟨⟨zEx_wf.nonempty, zEx_wf.timeSorted, zEx_wf.typeIdx, zEx_wf.defaultIdx⟩, zEx_sorted, by decide, rfl, rfl,
+    by decide, by decide, by decide⟩
+
+/-- the statement without "cs is not before the civil second of the last entry" fails: the table
+`zLate` claims to cover years up to 0 but its last entry shows year 5000 (previous: 2800); year
+3000 is then SKIPPED at that entry without any shift, while 400·8 years earlier it is UNIQUE -/
+theorem shift_needs_after_last :
+    ¬ (∀ (z : Zone) (h : Nat) (cs : Fields) (ly : Int), TableWF z → CivilSorted z → Valid cs →
+      z.extended = true → z.lastYear = some ly → cs.y > ly →
+      Civil.lt (trn z (z.transitions.size - 1)).prevCivilSec cs = true →
+      let s := (cs.y - ly - 1) / 400 + 1
+      let cs' : Fields := { cs with y := cs.y - 400 * s }
+      let r' := (Tz.makeTime z h cs').val.1
+      let r := (Tz.makeTime z h cs).val.1
+      ly - 400 < cs'.y ∧ cs'.y ≤ ly ∧ r.kind = r'.kind ∧
+      r.pre = (if s > 730692561 ∨ r'.pre + s * 12622780800 > i64max then i64max else r'.pre + s * 12622780800) ∧
+      r.trans = (if s > 730692561 ∨ r'.trans + s * 12622780800 > i64max then i64max else r'.trans + s * 12622780800) ∧
+      r.post = (if s > 730692561 ∨ r'.post + s * 12622780800 > i64max then i64max else r'.post + s * 12622780800)) := by
+  intro H
+  have h := H zLate 0 ⟨3000, 1, 1, 0, 0, 0⟩ 0 zLate_wf zLate_sorted (by decide) rfl rfl (by decide) (by decide)
+  have hk := h.2.2.1
+  revert hk
+  decide +kernel
+
 end Cctz.C02
